@@ -88,6 +88,7 @@ type c16Inst struct {
 	last     *c16Step
 	restarts int
 	regOpen  string // id of the pending registration proposal of service A:s4 ("" = none)
+	open2    *c16Open // a logout of appchain A submitted while another proposal on A is open (it pauses that one)
 	objs     map[string]*c16Obj
 }
 
@@ -178,8 +179,8 @@ func (in *c16Inst) apply(op string) bool {
 			in.open = &c16Open{id: fix.ProposalID(rc), obj: f[1], event: f[2], lastStatus: st.before[f[1]]}
 		}
 	case "conclude": // conclude:approve|reject  (three votes, one block each)
-		if in.open == nil {
-			return false
+		if in.open == nil || in.open2 != nil {
+			return false // nothing open, or the open proposal is paused by the logout on top of it
 		}
 		for i := 0; i < 3; i++ {
 			st.res = w.Block(w.VoteTx(i, in.open.id, f[1]))
@@ -212,6 +213,30 @@ func (in *c16Inst) apply(op string) bool {
 		if st.res.Receipts[0].IsSuccess() {
 			in.nextReq[p.name]++
 		}
+	case "sub2": // sub2:chainA:logout - a higher-priority logout on top of the open freeze / activate proposal of chain A
+		if in.open == nil || in.open.obj != "chainA" || in.open.event == "logout" || in.open2 != nil || in.objs["chainA"] == nil {
+			return false
+		}
+		o := in.objs["chainA"]
+		st.res = w.Block(w.InvokeTx(fix.KA, o.contract, "LogoutAppchain", pb.String(o.id), pb.String("reason")))
+		st.target, st.trigger = "chainA", "submit:logout"
+		if rc := st.res.Receipts[0]; rc.IsSuccess() {
+			st.accepted = true
+			in.open2 = &c16Open{id: fix.ProposalID(rc), obj: "chainA", event: "logout", lastStatus: st.before["chainA"]}
+		}
+	case "conclude2": // conclude2:approve|reject
+		if in.open2 == nil {
+			return false
+		}
+		for i := 0; i < 3; i++ {
+			st.res = w.Block(w.VoteTx(i, in.open2.id, f[1]))
+		}
+		st.target, st.trigger, st.accepted = "chainA", f[1], true
+		st.desc = fmt.Sprintf("%s (logout of chainA on top of %s)", op, in.open.event)
+		if f[1] == "approve" {
+			in.open = nil // the paused proposal is rejected together with it
+		}
+		in.open2 = nil
 	case "regsvc4": // submit the registration of A:s4 (a second, independent proposal)
 		if in.regOpen != "" || st.before["svcA4"] != "none" {
 			return false
@@ -337,7 +362,7 @@ func (in *c16Inst) check(c *mc.Ctx, path []string) {
 	}
 	// an appchain that is frozen or logged out has no usable service, whatever the order in
 	// which its own and its services' proposals concluded
-	if ca := after["chainA"]; ca == "frozen" || ca == "forbidden" {
+	if ca := after["chainA"]; ca == "frozen" || ca == "forbidden" || ca == "activating" {
 		for _, sn := range []string{"svcA1", "svcA3", "svcA4"} {
 			if c16Available[after[sn]] {
 				bad("service-usable-on-unavailable-appchain|"+ca, "appchain A is %s but its service %s is %s", ca, sn, after[sn])
@@ -424,6 +449,9 @@ func (in *c16Inst) key() string {
 	if in.regOpen != "" {
 		op += "|reg-open"
 	}
+	if in.open2 != nil {
+		op += "|logout-on-top/" + in.open2.lastStatus
+	}
 	used := ""
 	for _, p := range []string{"p1", "p3", "p5"} {
 		if in.nextReq[p] > 0 {
@@ -466,7 +494,7 @@ func C16(c *mc.Ctx) {
 			ops = append(ops, "sub:"+o+":"+e)
 		}
 	}
-	ops = append(ops, "conclude:approve", "conclude:reject", "probe:p1", "probe:p3", "restart", "regsvc4", "concludereg:approve", "concludereg:reject", "probe:p5")
+	ops = append(ops, "conclude:approve", "conclude:reject", "probe:p1", "probe:p3", "restart", "regsvc4", "concludereg:approve", "concludereg:reject", "probe:p5", "sub2:chainA:logout", "conclude2:approve", "conclude2:reject")
 	depth := 7
 	if c.Quick() {
 		depth = 6
